@@ -1,6 +1,6 @@
 """C01 stand-in (bounded): random histories of public operations; after every step every
 unit in the intern table must report the product of its factors' dimensions."""
-from .common import namespace, pools, seed_rng
+from .common import namespace, pools, seed_rng, shape_zoo
 
 CHECK = '''
 def c01_violations():
@@ -29,12 +29,17 @@ def compound(rng, units, prefixes):
     return "(" + " * ".join(parts) + ")"
 
 
+ZOO = []
+
+
 def gen_step(rng, units, prefixes, nvars):
     def operand():
         r = rng.random()
-        if nvars and r < 0.4:
+        if nvars and r < 0.35:
             return "v%d" % rng.randrange(nvars)
-        if r < 0.8:
+        if r < 0.55 and ZOO:
+            return rng.choice(ZOO)
+        if r < 0.85:
             return compound(rng, units, prefixes)
         return rng.choice(units)
     k = rng.choice(["mul", "div", "pow", "root", "root", "ratio", "ratio", "fmt", "fmt", "str", "html", "parse", "json", "pickle", "mulq", "conv", "pretty"])
@@ -82,6 +87,7 @@ def run(tier, seed):
     ns = namespace()
     exec(HELPERS, ns)
     units, prefixes, _ = pools(ns)
+    ZOO[:] = shape_zoo(ns)
     rng = seed_rng(seed, "C01")
     steps_total = 300 if tier == "quick" else 20000
     failures, samples, evals, distinct = [], [], 0, set()
